@@ -803,4 +803,122 @@ theorem printFinite_parse (compressed : Bool) (x : Rat) :
     unfold round10
     simp only [decide_eq_true_eq]
 
+
+/-! ### shape of the printed text -/
+
+def stripMinus (s : List Char) : List Char := match s with
+  | '-' :: r => r
+  | _ => s
+def fracOKb (body : List Char) : Bool :=
+  match body.dropWhile isDigit with
+  | [] => body.takeWhile isDigit ≠ []
+  | '.' :: f => f ≠ [] && f.all isDigit && f.length ≤ 10 && f.getLast? ≠ some '0'
+  | _ => false
+def allZeroB (body : List Char) : Bool :=
+  (body.takeWhile isDigit ++ body.dropWhile isDigit).all (fun c => c == '0' || c == '.')
+
+theorem shapeOK_eq (s : List Char) :
+    shapeOK s = (fracOKb (stripMinus s) && !(s.head? == some '-' && allZeroB (stripMinus s))) := rfl
+
+theorem stripMinus_other (body : List Char) (h : ∀ r, body ≠ '-' :: r) : stripMinus body = body := by
+  unfold stripMinus
+  split
+  · rename_i r; exact absurd rfl (h r)
+  · rfl
+
+theorem fracOKb_body (I0 F' : List Char)
+    (dI : ∀ c ∈ I0, isDigit c = true) (dF : ∀ c ∈ F', isDigit c = true)
+    (hne : I0 ≠ [] ∨ F' ≠ []) (hlen : F'.length ≤ 10) (hlast : F'.getLast? ≠ some '0') :
+    fracOKb (I0 ++ (if F' = [] then [] else '.' :: F')) = true := by
+  unfold fracOKb
+  by_cases hF : F' = []
+  · have hI : I0 ≠ [] := by
+      rcases hne with h | h
+      · exact h
+      · exact absurd hF h
+    have ⟨t1, t2⟩ := takeWhile_digits I0 [] dI (Or.inl rfl)
+    simp only [hF, if_true, t1, t2]
+    simp [hI]
+  · have ⟨t1, t2⟩ := takeWhile_digits I0 ('.' :: F') dI (Or.inr ⟨F', rfl⟩)
+    have ha : F'.all isDigit = true := List.all_eq_true.2 dF
+    simp only [hF, if_false, t2]
+    simp [hF, ha, hlen, hlast]
+
+theorem allZeroB_false (body : List Char) (c : Char) (hc : c ∈ body) (h0 : c ≠ '0') (hd : c ≠ '.') :
+    allZeroB body = false := by
+  unfold allZeroB
+  rw [List.takeWhile_append_dropWhile]
+  apply Bool.eq_false_iff.2
+  intro h
+  have := List.all_eq_true.1 h c hc
+  simp [h0, hd] at this
+
+theorem shapeOK_body (neg : Prop) [Decidable neg] (I0 F' : List Char)
+    (dI : ∀ c ∈ I0, isDigit c = true) (dF : ∀ c ∈ F', isDigit c = true)
+    (hne : I0 ≠ [] ∨ F' ≠ []) (hlen : F'.length ≤ 10) (hlast : F'.getLast? ≠ some '0')
+    (hnz : neg → ∃ c ∈ I0 ++ (if F' = [] then [] else '.' :: F'), c ≠ '0' ∧ c ≠ '.') :
+    shapeOK ((if neg then ['-'] else []) ++ (I0 ++ (if F' = [] then [] else '.' :: F'))) = true := by
+  have hhead := body_head I0 F' dI
+  have hfr := fracOKb_body I0 F' dI dF hne hlen hlast
+  generalize hbody : I0 ++ (if F' = [] then [] else '.' :: F') = body at *
+  rw [shapeOK_eq]
+  by_cases hn : neg
+  · rw [if_pos hn]
+    obtain ⟨c, hc, hc0, hcd⟩ := hnz hn
+    have hz := allZeroB_false body c hc hc0 hcd
+    show (fracOKb body && !(some '-' == some '-' && allZeroB body)) = true
+    rw [hfr, hz]; rfl
+  · rw [if_neg hn]
+    show (fracOKb (stripMinus body) && !(body.head? == some '-' && allZeroB (stripMinus body))) = true
+    rw [stripMinus_other body (fun r h => (hhead '-' r h).1 rfl), hfr]
+    have hh : (body.head? == some '-') = false := by
+      cases hb' : body with
+      | nil => rfl
+      | cons c r =>
+        have := (hhead c r hb').1
+        simp [this]
+    rw [hh]; rfl
+
+theorem printFinite_shape (compressed : Bool) (x : Rat) :
+    shapeOK (printFinite false compressed x) = true := by
+  rw [printFinite_unfold, printAbs_char]
+  generalize hI : (if (compressed && decide (absQ x < 1)) = true ∧ scaled10 x / 10000000000 = 0 then []
+      else natDigits (scaled10 x / 10000000000)) = I0
+  generalize hF : trimEnd '0' (fracDigits 10 (scaled10 x % 10000000000)) = F'
+  obtain ⟨dI, dF, hlast, hlen, _, _, _, _, hh0⟩ :=
+    print_digits_value (compressed && decide (absQ x < 1)) (scaled10 x) I0 F' hI.symm hF.symm
+  by_cases hsp : special ((if x < 0 then ['-'] else []) ++ (I0 ++ if F' = [] then [] else '.' :: F'))
+  · rw [if_pos hsp]; decide
+  · rw [if_neg hsp]
+    have hne : I0 ≠ [] ∨ F' ≠ [] := by
+      by_cases h1 : I0 = []
+      · by_cases h2 : F' = []
+        · exfalso; apply hsp
+          rw [h1, h2]
+          by_cases hx : x < 0
+          · rw [if_pos hx]; exact Or.inr (Or.inl rfl)
+          · rw [if_neg hx]; exact Or.inl rfl
+        · exact Or.inr h2
+      · exact Or.inl h1
+    apply shapeOK_body (x < 0) I0 F' dI dF hne hlen hlast
+    intro hx
+    by_cases hF0 : F' = []
+    · -- body = I0, whose head is a non-zero digit (otherwise the buffer would be "-0")
+      cases hI0 : I0 with
+      | nil => rcases hne with h | h
+               · exact absurd hI0 h
+               · exact absurd hF0 h
+      | cons c r =>
+        refine ⟨c, by simp [hF0], ?_, (digit_ne_dot c (dI c (by rw [hI0]; simp))).1⟩
+        intro hc0
+        apply hsp
+        have : I0 = ['0'] := hh0 (by rw [hI0, hc0]; rfl)
+        rw [this, hF0, if_pos hx]
+        exact Or.inr (Or.inr rfl)
+    · refine ⟨F'.getLast hF0, ?_, ?_, ?_⟩
+      · simp only [hF0, if_false, List.mem_append, List.mem_cons]
+        exact Or.inr (Or.inr (List.getLast_mem hF0))
+      · intro e; apply hlast; rw [List.getLast?_eq_some_getLast hF0, e]
+      · exact (digit_ne_dot _ (dF _ (List.getLast_mem hF0))).1
+
 end Grass.Num
